@@ -3,6 +3,8 @@ correspondence: trees over RECORDING atoms (every call of a user function is log
                 library's own operators (&, |, ^, ~) and factories (all_p, any_p, comp_p, tee_p); the implementation's
                 result (True/False/raise) and call log are compared with the model's `run` (value, trace).
 search:         the property's clauses checked on the implementation with a plain-Python oracle."""
+import itertools
+
 from common import call, chunks, enc, gen, main, rng_of, vlib
 
 from predicate import predicate as PP
@@ -191,6 +193,52 @@ def search(payload):
             exp_seen = list(items) if stop is None else list(items[: stop + 1])
             if k != "ok" or r != exp or seen != exp_seen:
                 fails.append({"quantifier": qname, "items": repr(items), "result": repr(r), "expected": exp, "evaluated": repr(seen), "expected_evaluated": repr(exp_seen)})
+    # items that are == but not the same value / repeated items: every item up to the first counter-example (witness) is evaluated
+    pool = [1, 1.0, True, 0, 0.0, False, -1, 2, 2.0]
+    behaviours = (("type(v) is int", lambda v: type(v) is int), ("type(v) is float", lambda v: type(v) is float),
+                  ("v > 0", lambda v: v > 0), ("type(v) is not bool", lambda v: type(v) is not bool))
+    lists = [list(t) for k in (2, 3) for t in itertools.product(pool[:6], repeat=k)][:: (1 if payload.get("deep") else 3)]
+    lists += [[rng.choice(pool) for _ in range(rng.randrange(2, 6))] for _ in range(300)]
+    for items in lists:
+        for bname, beh in behaviours:
+            for q, qname in ((all_p, "all"), (any_p, "any")):
+                n += 1
+                del log[:]
+                k, r = call(q(atom("A", beh)), items)
+                seen = [c[1] for c in log]
+                vals = [beh(v) for v in items]
+                stop = next((i for i, b in enumerate(vals) if b == (qname == "any")), None)
+                exp = (stop is None) if qname == "all" else (stop is not None)
+                exp_seen = items if stop is None else items[: stop + 1]
+                # the evaluated items must be a subsequence of the items up to the first counter-example / witness (a repeated
+                # item need not be evaluated again; nothing after the stop may be evaluated)
+                it = iter(exp_seen)
+                same_seen = all(any(type(a) is type(b) and a == b for b in it) for a in seen)
+                if k != "ok" or r != exp or not same_seen:
+                    fails.append({"quantifier": qname, "element_predicate": bname, "items": repr(items), "result": repr(r), "expected": exp,
+                                  "evaluated": repr(seen), "expected_evaluated": repr(exp_seen)})
+                    break
+        if len(fails) >= 5:
+            break
+    # comp_p on the same (mutable) object twice: f is applied at every call, to the object as it is now
+    calls = []
+    cp = comp_p(lambda x: (calls.append(list(x)), len(x))[1], atom("P", lambda v: v <= 2))
+    b = ["apple", "pear"]
+    r1 = call(cp, b)
+    r1b = call(cp, b)
+    b.append("plum")
+    r2 = call(cp, b)
+    n += 3
+    if (r1, r1b, r2) != (("ok", True), ("ok", True), ("ok", False)) or len(calls) != 3:
+        fails.append({"case": "comp_p(len, p) called on the same list before and after list.append: p(f(x)) must be recomputed at every call",
+                      "results": repr((r1, r1b, r2)), "expected": "True, True, False", "calls_of_f": repr(calls)})
+    d = {"a": 1}
+    dp = comp_p(lambda x: len(x), atom("P", lambda v: v == 1))
+    r1 = call(dp, d)
+    d["b"] = 2
+    r2 = call(dp, d)
+    if (r1, r2) != (("ok", True), ("ok", False)):
+        fails.append({"case": "comp_p(len, eq 1) on a dict before and after adding a key", "results": repr((r1, r2)), "expected": "True, False"})
     del log[:]
     calls = []
     p = comp_p(lambda x: (calls.append(x), x + 1)[1], atom("P", lambda v: v == 4))
@@ -214,4 +262,5 @@ def replay(payload):
     return {"fails": True, "input": payload["replay"].get("input")}
 
 
-main({"correspondence": correspondence, "search": search, "replay": replay})
+if __name__ == "__main__":
+    main({"correspondence": correspondence, "search": search, "replay": replay})
